@@ -470,6 +470,16 @@ def run(h):
         corpus.append((e, 'domain-call'))
     for _ in range(h.n(11000)):
         corpus.append(g_source(fr))
+    if h.shard == 0:
+        # extremes of size (appended after the random part, which they must not shift)
+        big = '1' + '0' * 30
+        for s in ['1' + '0' * 4400, 'round-half-to-even(%s, -%s)' % (big, big), 'round(%s, -%s)' % (big, big),
+                  'round-half-to-even(1.5, %s)' % big, 'round(2.5, -%s)' % big, 'round-half-to-even(2.5e0, -%s)' % big,
+                  'round(2.5e0, %s)' % big, 'substring("abc", -%s, %s)' % (big, big), 'subsequence((1, 2, 3), -%s, %s)' % (big, big),
+                  'string-length(string-join(for $i in 1 to 20000 return "ab", ""))', 'count(1 to 200000)',
+                  'format-integer(%s, "w")' % big, 'format-number(%s, "#,##0.00")' % big, 'xs:integer(%s) idiv 7' % big,
+                  'xs:decimal("1e-30")' , '%s * %s * %s' % (big, big, big), 'math:pow(%s, 3)' % big, 'abs(-%s)' % big]:
+            corpus.append((s, 'extreme'))
     if h.tier == 'thorough':
         # the whole ill-typed call matrix, split over the shards
         for ver in ('2.0', '3.0', '3.1'):
